@@ -161,26 +161,25 @@ class StubOpener(urllib.request.OpenerDirector):
         raise urllib.error.URLError('stub: not found ' + url)
 
 
-def applies(mode, kind, role):
-    """Documented rule: always; remote = base URL is remote; nonlocal = base URL is not a local file URL."""
+def applies(mode, kind, role, base='none'):
+    """Documented rule: always; remote = base URL is remote; nonlocal = base URL is not a local file URL.
+    `base` is the base_url argument given for sources without a URL of their own (none / remote / local)."""
     if mode == 'always':
         return True
     if mode == 'never':
         return False
-    remote = kind == 'remote_url'
-    local = kind in ('path', 'file_url')
-    if role in ('included_schema', 'imported_schema'):
-        # sub-resources are located through the main schema's directory (a local path) unless remote
-        local = kind != 'remote_url'
+    if kind == 'remote_url':
+        remote, local = True, False
+    elif kind in ('path', 'file_url') or role in ('included_schema', 'imported_schema'):
+        remote, local = False, True
     else:
-        if kind in ('text_file', 'binary_file'):
-            local = False     # a file object carries no URL: base_url is None
+        remote, local = base == 'remote', base == 'local'
     if mode == 'remote':
         return remote
     return not local
 
 
-def run_cell(xmlschema, probes_counter, fx_dir, mode, role, kind, pname, payload, encoding, lazy=False):
+def run_cell(xmlschema, probes_counter, fx_dir, mode, role, kind, pname, payload, encoding, lazy=False, base='none'):
     from xmlschema.exceptions import XMLResourceForbidden
     dtd, use, declares = payload
     text, data = document(role, dtd, use, encoding)
@@ -232,14 +231,19 @@ def run_cell(xmlschema, probes_counter, fx_dir, mode, role, kind, pname, payload
     with audit.window() as events, warnings.catch_warnings():
         warnings.simplefilter('ignore')
         try:
+            bkw = {}
+            if base == 'remote':
+                bkw['base_url'] = REMOTE
+            elif base == 'local':
+                bkw['base_url'] = fx_dir
             if role == 'instance':
-                r = xmlschema.XMLResource(src, defuse=mode, opener=opener, lazy=lazy)
+                r = xmlschema.XMLResource(src, defuse=mode, opener=opener, lazy=lazy, **bkw)
                 if lazy:
                     result['tree'] = b''.join(canon(e) for e in r.iter_depth())
                 else:
                     result['tree'] = canon(r.root)
             elif role == 'main_schema':
-                s = xmlschema.XMLSchema10(src, defuse=mode, opener=opener)
+                s = xmlschema.XMLSchema10(src, defuse=mode, opener=opener, **bkw)
                 result['tree'] = canon(s.source.root)
             else:
                 # payload is the included / imported document; the main schema is clean
@@ -314,18 +318,23 @@ def run_shard(spec, res):
                 for lazy in lazies:
                     if lazy and kind in ('raw_nonseekable', 'buffered_nonseekable'):
                         continue
-                    cell = {'mode': mode, 'role': role, 'kind': kind, 'payload': pname, 'encoding': enc, 'lazy': lazy}
-                    result, events = run_cell(xmlschema, counter, fx_dir, mode, role, kind, pname, payload, enc, lazy)
-                    if result['skipped']:
-                        continue
-                    judge(res, xmlschema, counter, fx_dir, cell, payload, result, events)
+                    bases = ('none',)
+                    if role in ('instance', 'main_schema') and kind not in ('path', 'file_url', 'remote_url') and \
+                            enc == 'utf-8' and pname in ('internal_used', 'no_doctype', 'external_system', 'parameter_internal'):
+                        bases = ('none', 'remote', 'local')
+                    for base in bases:
+                        cell = {'mode': mode, 'role': role, 'kind': kind, 'payload': pname, 'encoding': enc, 'lazy': lazy, 'base': base}
+                        result, events = run_cell(xmlschema, counter, fx_dir, mode, role, kind, pname, payload, enc, lazy, base)
+                        if result['skipped']:
+                            continue
+                        judge(res, xmlschema, counter, fx_dir, cell, payload, result, events)
     counter.stop()
 
 
 def judge(res, xmlschema, counter, fx_dir, cell, payload, result, events):
     mode, role, kind = cell['mode'], cell['role'], cell['kind']
     dtd, use, declares = payload
-    app = applies(mode, kind, role)
+    app = applies(mode, kind, role, cell.get('base', 'none'))
     res.case(env.h8(tuple(sorted(cell.items()))) if (app and declares) else None)
     res.count('cells')
     res.count('applies' if app else 'not_applies')
@@ -373,7 +382,8 @@ def judge(res, xmlschema, counter, fx_dir, cell, payload, result, events):
             if raised:
                 res.violation(f'clean-document-refused:{role}:{kind}:{cell["payload"]}', cell, f'{cell}: {raised} {result.get("msg")}')
                 return
-            ref, _ = run_cell(xmlschema, counter, fx_dir, 'never', role, kind, cell['payload'], payload, cell['encoding'], cell['lazy'])
+            ref, _ = run_cell(xmlschema, counter, fx_dir, 'never', role, kind, cell['payload'], payload, cell['encoding'], cell['lazy'],
+                              cell.get('base', 'none'))
             if ref['tree'] != result['tree']:
                 res.violation('clean-document-tree-differs-with-defusing', cell, f'{cell}')
                 return
@@ -408,7 +418,7 @@ def replay(case):
     open(os.path.join(fx_dir, 'ext.dtd'), 'w').write(f'<!ENTITY x "{MARK}">')
     payload = payloads(fx_dir, 'thorough')[case['payload']]
     result, events = run_cell(xmlschema, counter, fx_dir, case['mode'], case['role'], case['kind'], case['payload'], payload,
-                              case['encoding'], case.get('lazy', False))
+                              case['encoding'], case.get('lazy', False), case.get('base', 'none'))
     print(result)
     res = Result()
     judge(res, xmlschema, counter, fx_dir, case, payload, result, events)
